@@ -257,7 +257,9 @@ func (x *XSpec) Main() {
 		run.Set("scenario:"+sc.Name, map[string]any{"executions": st.Executions, "scheduling_points": st.Points,
 			"max_points_per_execution": st.MaxPoints, "distinct_observations": len(obs), "level1_subtrees": len(jobs),
 			"bounds": map[string]int{"delays": b.Delays, "preemptions": b.Preemptions, "server_deviations": b.EnvDev}})
-		if len(obs) < 2 && st.Executions > 1 && !x.AllowSingleObservation[sc.Name] {
+		// (vacuity guard; it says nothing when violations were found: code that fails every execution in the
+		// same way also gives one observation)
+		if len(obs) < 2 && st.Executions > 1 && !x.AllowSingleObservation[sc.Name] && run.Violations() == 0 {
 			vr.HarnessError("scenario %s: %d executions produced a single observation vector: nothing collided (vacuous harness)", sc.Name, st.Executions)
 		}
 	}
